@@ -20,6 +20,7 @@ var (
 	replayFile      = flag.String("replay", "", "replay a journaled case instead of generating")
 	maxSteps        = flag.Int("steps", 14, "maximum number of steps per generated history")
 	tier            = flag.String("tier", "quick", "quick|thorough")
+	gnuTar          = flag.Bool("gnutar", false, "C17: let /usr/bin/tar write a third of the archives")
 	noMinisign      = flag.Bool("nominisign", false, "C18: leave out minisign (scrypt at 1 GiB per operation)")
 	byteEdits       = flag.Int("byteedits", 300, "C08: number of enumerated single-byte edits per tape (-1: every byte, three edits each)")
 	maxCuts         = flag.Int("cuts", 150, "C06/C16: maximum number of cut points per history")
